@@ -420,7 +420,9 @@ def oracle_reduce(op, r, jdf_edges):
     reads = multiset(f['reads'])
     bad = sorted(int(k) for k in reads if int(k) >= MT)
     if bad:
-        return ('reduce.jdf-reads-tile-outside-matrix', 'reduce.jdf on %d tiles: a task reads descA(%d,0), which does not exist (tiles are 0..%d)' % (MT, bad[0], MT - 1))
+        # the known defect is exactly: even MT, one read of descA(MT,0); anything else gets its own key
+        key = 'reduce.jdf-reads-tile-outside-matrix' if (MT % 2 == 0 and bad == [MT] and reads[str(MT)] == 1) else 'reduce.jdf-reads-tile-outside-matrix:MT=%d:%s' % (MT, bad)
+        return (key, 'reduce.jdf on %d tiles: a task reads descA(%d,0), which does not exist (tiles are 0..%d)' % (MT, bad[0], MT - 1))
     for m in range(MT):
         if reads.get(str(m), 0) != 1:
             return ('reduce.jdf-tile-not-read-once', 'reduce.jdf on %d tiles: descA(%d,0) read %d times' % (MT, m, reads.get(str(m), 0)))
